@@ -221,7 +221,7 @@ def recoverF (ro : Bool) (file : Path → Option Inode) (B : Nat) : Except RecEr
   | .error e => .error e
   | .ok (imms, memOps) =>
   let nextMem := lastFid mems + 1
-  let newMemOps := if ro then [] else newLog (.mem nextMem)
+  let newMemOps := if ro then [] else newLog (.mem nextMem) ++ [.syncDir]
   -- 4. tables: revertToManifest + OpenTable
   match openTables file tset with
   | .error e => .error e
@@ -236,7 +236,7 @@ def recoverF (ro : Bool) (file : Path → Option Inode) (B : Nat) : Except RecEr
   match openVlogs ro vmax vls with
   | .error e => .error e
   | .ok vops =>
-  let newV := if ro then [] else newLog (.vlog (vmax + 1))
+  let newV := if ro then [] else newLog (.vlog (vmax + 1)) ++ [.syncDir]
   .ok { tables := tables, imms := imms, nextTxnTs := mv + 1, nextMemFid := nextMem,
         nextSstId := lastFid (tset.map (fun x => (x.1, ()))) + 1,
         vlogFid := vmax + 1,
